@@ -563,21 +563,21 @@ Section ReaderProofs.
         let '(ws2, oc) := rdc il fixed width f p' r in (ws ++ ws2, oc)
     | Some MChar =>
         match t with
-        | [] => ([], RPanicIndex)
+        | [] => ([], ROk)
         | code :: t' =>
             let '(ws, p', r) := rd_char il fixed width code n p t' in
             let '(ws2, oc) := rdc il fixed width f p' r in (ws ++ ws2, oc)
         end
     | Some MAttr =>
         match t with
-        | [] => ([], RPanicIndex)
+        | [] => ([], ROk)
         | a :: t' =>
             let '(ws, p', r) := rd_attr il fixed width a n p t' in
             let '(ws2, oc) := rdc il fixed width f p' r in (ws ++ ws2, oc)
         end
     | Some MFull =>
         match t with
-        | [] => ([], RPanicIndex)
+        | [] => ([], ROk)
         | [_] => ([], ROk)
         | code :: a :: r =>
             let '(ws, p') := rd_full il fixed width code a n p in
